@@ -286,7 +286,7 @@ class FullProduct(Dumps):
 def build(tier, seed):
     subs = T.connected_subsets(bases.get("v5x4"), min_size=2)
     if tier == "quick":
-        pick = [subs[0], subs[len(subs) // 2], subs[-1]]
+        pick = [subs[0], subs[len(subs) // 4], subs[len(subs) // 2], subs[3 * len(subs) // 4], subs[-1]]
         return [Dumps("dumps-d2", [["v5x4", S] for S in pick] + [["v4x4p%d" % (seed + 1), None]], 2),
                 FullProduct("wrap-x-sign-x-tail-x-ids", [["v5x4", subs[len(subs) // 3]]])]
     return [Dumps("dumps-d2", [["v5x4", S] for S in subs] + [["v5x5", None], ["v4x4p%d" % (seed + 1), None]], 2),
